@@ -9,11 +9,12 @@ COQ_TARGETS = ["Tie/C16.vo", "Tie/C16Known.vo", "Properties/C16.vo"]
 PROPERTY_FILE = "Properties/C16.v"
 TIE = "Tie.C16"
 DRIVER = "c16_driver.py"
-SHARD = 40
+SHARD = 18
 THEOREMS = [
     "C16_listings_exact", "C16_registries_determined_by_listings", "C16_probe_finds_nothing",
-    "C16_events_exact_refuted", "C16_events_exact_refuted_adapter_overwrite", "C16_events_exact_partial",
-    "C16_unregister_returns_removed", "C16_replace_order", "C16_utility_queries_from_listings",
+    "C16_events_exact_refuted", "C16_events_exact_refuted_multi_removal",
+    "C16_events_exact_refuted_adapter_overwrite", "C16_events_exact_partial",
+    "C16_unregister_returns_removed", "C16_replace_order",
 ]
 RULE = ("histories of 5-40 calls of the eight register*/unregister* methods (+ re-__init__) on one Components "
         "over a generated interface/class world, with identical / equal-but-distinct / unhashable components, "
